@@ -77,7 +77,7 @@ garbage_line = st.one_of(st.sampled_from(FIXED_GARBAGE), st.sampled_from(FIXED_G
 @st.composite
 def _cases(draw, ctx):
     c = draw(G.chart_specs(max_segments=3, max_tracks=2, min_tracks=1, max_notes=ctx.pick(8, 20),
-                           max_events=4, max_ts=2, max_anchors=1, min_notes=2))
+                           max_events=4, max_ts=2, max_anchors=1, min_notes=2, with_layout=False))
     spec = c["spec"]
     secs = [(n, b) for n, b in S.sections_of(spec) if n != "Song"]
     ins = {}
